@@ -24,6 +24,12 @@ DIRECTIVES = [
     (["#error unsupported configuration"], None),
     (["#warning check this"], None),
     (["#"], None),
+    # keyword directly followed by a non-blank character
+    (["#if(FOO)"], "#if (FOO)"),
+    (["#if!defined(X)"], "#if !defined(X)"),
+    (["#elif(BAR)"], "#elif (BAR)"),
+    (["#include\"a.h\""], "#include \"a.h\""),
+    (["#endif//x"], None),
     (["# 1 \"main.F90\" 2"], None),
     (["#define LONG(a) \\", "    a + 1"], "#define LONG(a)     a + 1"),
     (["  #  define SPACED 3"], "#define SPACED 3"),
